@@ -236,6 +236,53 @@ func scenario(pi, si, ei int) *mc.Scenario {
 	}
 }
 
+// twoReaders: two reader threads at once while a write transaction is parked: a reader must not
+// wait for the writer even when it collides with another reader on some shared scratch state.
+var pairEntries = []string{"Has", "Route", "Reverse", "Lookup+Close", "ServeHTTP/direct-param", "ServeHTTP/catchall-infix", "ServeHTTP/405", "Iter.Reverse", "Len"}
+
+func twoReaders() []*mc.Scenario {
+	idx := map[string]int{}
+	for i, e := range entries {
+		idx[e.name] = i
+	}
+	var out []*mc.Scenario
+	for i, a := range pairEntries {
+		for _, b := range pairEntries[i:] {
+			a, b := a, b
+			for _, pi := range []int{0, 2} {
+				pi := pi
+				out = append(out, &mc.Scenario{
+					Name: fmt.Sprintf("two-readers %s | %s || %s", profiles[pi].name, a, b),
+					Build: func() *mc.Instance {
+						e := build(pi, 2) // write transaction parked after uncommitted writes
+						return &mc.Instance{
+							Bodies: []func(){func() { entries[idx[a]].run(e) }, func() { entries[idx[b]].run(e) }},
+							Check: func(x *mc.Exec) (string, string, string) {
+								if x.S.Deadlock || !x.S.Finished(0) || !x.S.Finished(1) {
+									return "blocked", "reader-blocked", fmt.Sprintf("readers %q and %q cannot both complete while a write transaction is held open: %s", a, b, x.S.DeadInfo)
+								}
+								locks := 0
+								for t := 0; t < 2; t++ {
+									if pv, stk := x.S.PanicOf(t); pv != nil {
+										return "panic", "panic", fmt.Sprintf("reader panicked: %v\n%s", pv, mc.NormStack(stk, 10))
+									}
+									pt := x.S.PerThread[t]
+									locks += pt[vs.OpLock] + pt[vs.OpRLock] + pt[vs.OpTryLock] + pt[vs.OpUnlock] + pt[vs.OpRUnlock]
+								}
+								if locks > 0 {
+									return "locks", "reader-takes-lock", fmt.Sprintf("readers %q and %q performed %d mutex operations: readers must never touch the writer lock", a, b, locks)
+								}
+								return "ok", "", ""
+							},
+						}
+					},
+				})
+			}
+		}
+	}
+	return out
+}
+
 // converse scenarios: parked readers never block a writer; writers wait only for writers.
 func converse() []*mc.Scenario {
 	var out []*mc.Scenario
@@ -388,7 +435,8 @@ func all() []*mc.Scenario {
 			}
 		}
 	}
-	return append(scs, converse()...)
+	scs = append(scs, converse()...)
+	return append(scs, twoReaders()...)
 }
 
 var _ = http.MethodGet
@@ -413,13 +461,13 @@ func init() {
 					cc := *c
 					cc.NShards = 1
 					bound := -1
-					if strings.HasPrefix(sc.Name, "commit-then-park") {
+					if strings.HasPrefix(sc.Name, "commit-then-park") || strings.HasPrefix(sc.Name, "two-readers") {
 						bound = 2
 					}
 					mc.Explore(&cc, r, "product", sc, mc.ExploreOpts{Bound: bound})
 				}
 				mc.CountNontrivial(r)
-				r.Bounds = map[string]string{"product": fmt.Sprintf("%d profiles x %d writer stages x %d read entry points + %d converse scenarios (unbounded interleavings)", len(profiles), len(stages), len(entries), len(converse()))}
+				r.Bounds = map[string]string{"product": fmt.Sprintf("%d profiles x %d writer stages x %d read entry points + %d converse scenarios (unbounded interleavings) + %d two-reader scenarios (pairs of %d entry points x 2 profiles against a parked writer, preemption bound 2)", len(profiles), len(stages), len(entries), len(converse()), len(twoReaders()), len(pairEntries))}
 			},
 			Replay: func(c *mc.Ctx, cs json.RawMessage) string { return mc.ReplaySched(all(), cs) },
 		}},
